@@ -280,19 +280,72 @@ func retSpan(key, latestMs uint64) uint64 {
 	return sp
 }
 
+// retIdxWords: the index a log segment belongs to is a function of its key.  Every second key gets an index NAME that is
+// also a word of the data layout (<data>/<host>/final/<index>/<stream>/<suffix>/<suffix>; "final" most often, names that
+// merely contain it, the other directory and file names of the ingest directory, the host id): valid index names
+// (vtable.IsValidIndexName = no path separator), and the code that turns a segment key back into its directory
+// (utils.GetSegBaseDirFromFilename, used by DeleteSegmentData and removeSegmetas) must not be confused by them.
+// "" = an ordinary name (rtx<org>).
+var retIdxWords = []string{"", "final", "", "rotated", "", "final", "", "ts", "", "finalx", "", "final", "", "<host>", "", "final.final",
+	"", "final", "", "active", "", "xfinal", "", "segmeta.json"}
+
+func retIdxName(s *rseg) string {
+	if s.probe {
+		return "rtx0"
+	}
+	switch w := retIdxWords[s.key%uint64(len(retIdxWords))]; w {
+	case "":
+		return fmt.Sprintf("rtx%d", s.org)
+	case "<host>":
+		return config.GetHostID()
+	default:
+		return w
+	}
+}
+
+func retIdxClass(s *rseg) string {
+	n := retIdxName(s)
+	switch {
+	case n == "final":
+		return "final"
+	case strings.Contains(n, "final"):
+		return "contains-final"
+	case strings.HasPrefix(n, "rtx"):
+		return "ordinary"
+	}
+	return "layout-word"
+}
+
+// retIdxTags: which kinds of index name the log segments that the pass removed from segmeta.json had
+func retIdxTags(all []*rseg, obs retObs) []string {
+	seen := map[string]bool{}
+	var out []string
+	for _, s := range all {
+		if s.probe || s.kind != 'l' || obs.meta[s.segkey] {
+			continue
+		}
+		if c := retIdxClass(s); !seen[c] {
+			seen[c] = true
+			out = append(out, "victim-index-name="+c)
+		}
+	}
+	sort.Strings(out)
+	return out
+}
+
 // retBuild creates the state for the segments (using s.real as the time) through the real APIs.
 func retBuild(ing string, segs []*rseg) {
 	var metas []*structs.SegMeta
 	for _, s := range segs {
 		if s.kind == 'l' {
-			s.basedir = fmt.Sprintf("%sfinal/rtx%d/st/%d/", ing, s.org, s.key)
+			s.basedir = fmt.Sprintf("%sfinal/%s/st/%d/", ing, retIdxName(s), s.key)
 			s.segkey = s.basedir + fmt.Sprint(s.key)
 			must(os.MkdirAll(s.basedir, 0o755))
 			must(os.WriteFile(s.segkey+"_1.csg", []byte("x"), 0o644))
 			retBlob[s.basedir+"a.csg"] = true
 			retBlob[s.basedir+sutils.SegmentValidityFname] = true
 			sm := &structs.SegMeta{SegmentKey: s.segkey, LatestEpochMS: s.real, EarliestEpochMS: s.real - retSpan(s.key, s.real), SegbaseDir: s.basedir,
-				VirtualTableName: fmt.Sprintf("rtx%d", s.org), RecordCount: 1, BytesReceivedCount: s.size, NumBlocks: 1, OrgId: s.org}
+				VirtualTableName: retIdxName(s), RecordCount: 1, BytesReceivedCount: s.size, NumBlocks: 1, OrgId: s.org}
 			if len(s.pqs) > 0 {
 				// as at rotation (segstore.go): the segment's pqids go to its .sfm file (BulkAddRotatedSegmetas below),
 				// those with empty results also to the pqmeta files; one more pqid stands for a query with results
@@ -323,11 +376,12 @@ func retBuild(ing string, segs []*rseg) {
 
 type retObs struct {
 	meta, files, mem, blob map[string]bool // by segkey
+	dir                    map[string]bool // by segkey: the segment directory exists on disk
 	pq                     map[string]bool // "<pqid>/<segkey>"
 }
 
 func retObserve(segs []*rseg) retObs {
-	o := retObs{map[string]bool{}, map[string]bool{}, map[string]bool{}, map[string]bool{}, map[string]bool{}}
+	o := retObs{meta: map[string]bool{}, files: map[string]bool{}, mem: map[string]bool{}, blob: map[string]bool{}, dir: map[string]bool{}, pq: map[string]bool{}}
 	// step 4 of DeleteSegmentData only queues the removals from the pqmeta files (a channel drained every 10 s)
 	writer.VerifDrainPqsRequests()
 	for _, m := range writer.ReadLocalSegmeta(false) {
@@ -351,6 +405,9 @@ func retObserve(segs []*rseg) retObs {
 		}
 		if _, err := os.Stat(s.segkey + suffix); err == nil {
 			o.files[s.segkey] = true
+		}
+		if _, err := os.Stat(s.basedir); err == nil { // the segment's directory itself (ON DISK, not the metadata)
+			o.dir[s.segkey] = true
 		}
 		for b := range retBlob {
 			if strings.HasPrefix(b, s.basedir) {
@@ -505,6 +562,7 @@ func retRunTimedPass(ing string, segs []*rseg, nowV int64, hours int, hv uint64,
 
 // retCheckStores: the property on the five stores, independent of the model.
 func retCheckStores(all []*rseg, obs retObs, res *Result, what string) {
+	retLastIdxTags = retIdxTags(all, obs)
 	for _, s := range all {
 		if s.probe {
 			continue
@@ -526,7 +584,9 @@ func retCheckStores(all []*rseg, obs retObs, res *Result, what string) {
 			}
 		} else {
 			if obs.files[s.segkey] {
-				res.Fails = append(res.Fails, PropFail{Sig: "retention/victim-leftover/files", Msg: fmt.Sprintf("%s: segment %d removed from the meta file but its files remain", what, s.key)})
+				res.Fails = append(res.Fails, PropFail{Sig: "retention/victim-leftover/files", Msg: fmt.Sprintf("%s: segment %d (index %q) removed from the meta file but its files remain on disk", what, s.key, retIdxName(s))})
+			} else if obs.dir[s.segkey] {
+				res.Fails = append(res.Fails, PropFail{Sig: "retention/victim-leftover/directory", Msg: fmt.Sprintf("%s: segment %d (index %q) removed from the meta file but its directory is still on disk", what, s.key, retIdxName(s))})
 			}
 			if obs.mem[s.segkey] {
 				res.Fails = append(res.Fails, PropFail{Sig: "retention/victim-leftover/memory", Msg: fmt.Sprintf("%s: segment %d removed from the meta file but still in the in-memory metadata (searchable)", what, s.key)})
@@ -579,7 +639,7 @@ func execRetTime(f []string) Result {
 		}
 		if normal && s.org == 0 {
 			if s.realMs() <= hStar && !gone {
-				res.Fails = append(res.Fails, PropFail{Sig: "retention/time-kept-expired", Msg: fmt.Sprintf("segment %d (%c) newest event %d ms ≤ horizon %d but it survived the pass", s.key, s.kind, s.realMs(), hStar)})
+				res.Fails = append(res.Fails, PropFail{Sig: "retention/time-kept-expired", Msg: fmt.Sprintf("segment %d (%c, index %q) newest event %d ms ≤ horizon %d but it survived the pass", s.key, s.kind, retIdxName(s), s.realMs(), hStar)})
 			}
 			if s.realMs() > hEnd && gone {
 				res.Fails = append(res.Fails, PropFail{Sig: "retention/time-deleted-live", Msg: fmt.Sprintf("segment %d (%c) newest event %d ms > horizon %d but it was deleted", s.key, s.kind, s.realMs(), hEnd)})
@@ -1073,18 +1133,23 @@ func execRet(line string) Result {
 	if len(f) < 2 || f[0] != "ret" {
 		return Result{Out: "bad-op"}
 	}
+	retLastIdxTags = nil
+	res := Result{Out: "bad-op"}
 	switch f[1] {
 	case "time":
-		return execRetTime(f[2:])
+		res = execRetTime(f[2:])
 	case "vol":
-		return execRetVol(f[2:])
+		res = execRetVol(f[2:])
 	case "int":
-		return execRetInt(f[2:])
+		res = execRetInt(f[2:])
 	case "rec":
-		return execRetRec(f[2:])
+		res = execRetRec(f[2:])
 	}
-	return Result{Out: "bad-op"}
+	res.Tags = append(res.Tags, retLastIdxTags...) // distribution of the victims' index names (retIdxWords)
+	return res
 }
+
+var retLastIdxTags []string
 
 // ---------------------------------------------------------------- generator
 
